@@ -211,7 +211,7 @@ Proof.
               snd (sm_entry n it (Qcz m) j) = if (j =? centre it) then snd (sm_entry n it (Qcz m) j) else 0%Qc).
   { intros j Hj. destruct (Z.eqb_spec j (centre it)) as [E|E]; [reflexivity|].
     unfold sm_entry. rewrite Ei, Ef.
-    destruct (n / 2 + m <? n); [|reflexivity].
+    destruct ((0 <=? n / 2 + m) && (n / 2 + m <? n))%bool; [|reflexivity].
     destruct (wrap32 (n / 2 + m + j - centre it) <? n); [|reflexivity]. cbn [snd].
     replace (coeffs (K:=QcF) it 0%Qc) with (unit_at (K:=QcF) it)
       by (symmetry; exact (coeffs_at_zero QcF it Hv)).
@@ -219,7 +219,8 @@ Proof.
   unfold row_out.
   rewrite (qsum_single _ it (centre it)); try lia.
   - unfold sm_entry. rewrite Ei, Ef. 
-    assert (E1 : (n / 2 + m <? n) = true) by (apply Z.ltb_lt; lia). rewrite E1.
+    assert (E0 : (0 <=? n / 2 + m) = true) by (apply Z.leb_le; lia).
+    assert (E1 : (n / 2 + m <? n) = true) by (apply Z.ltb_lt; lia). rewrite E0, E1. cbn [andb].
     replace (n / 2 + m + centre it - centre it) with (n / 2 + m) by lia.
     rewrite (wrap32_small (n / 2 + m)) by (change (2 ^ 32) with 4294967296; lia). rewrite E1. cbn [fst snd].
     replace (y + (n / 2 + m) - n / 2) with (y + m) by lia.
